@@ -3,6 +3,11 @@ use crate::{ClientConfig, OptionType, Packet, Socket, TransferOption, Worker};
 use std::cmp::PartialEq;
 use std::error::Error;
 use std::fs::File;
+#[cfg(rs_tftpd_verif)]
+use crate::verif::net::UdpSocket;
+#[cfg(rs_tftpd_verif)]
+use std::net::{Ipv4Addr, Ipv6Addr, SocketAddr};
+#[cfg(not(rs_tftpd_verif))]
 use std::net::{Ipv4Addr, Ipv6Addr, SocketAddr, UdpSocket};
 use std::path::PathBuf;
 use std::time::Duration;
